@@ -252,6 +252,9 @@ func compareOutline(a, b []type1.GlyphOp, tol float64) string {
 // C08: source font versus the independently decoded file
 
 func ratOf(x float64) *big.Rat {
+	if x == math.Trunc(x) && math.Abs(x) < 1<<53 {
+		return big.NewRat(int64(x), 1)
+	}
 	r := new(big.Rat)
 	r.SetFloat64(x)
 	return r
@@ -332,16 +335,19 @@ func CompareDecoded(src *type1.Font, dec *t1dec.Font) []Diff {
 			}
 		}
 	}
-	// encoding
+	// encoding: a name that is not a glyph of the font selects .notdef, in
+	// the source as in the file
 	switch {
 	case src.Encoding == nil && dec.Encoding != nil:
 		out = append(out, diff("encoding", "font without encoding written with one"))
 	case src.Encoding != nil && dec.Encoding == nil:
 		out = append(out, diff("encoding", "encoding not written"))
 	case src.Encoding != nil:
-		for c := range src.Encoding {
-			if src.Encoding[c] != dec.Encoding[c] {
-				out = append(out, diff("encoding", "code %d: %q decoded as %q (StandardEncoding keyword: %v)", c, src.Encoding[c], dec.Encoding[c], dec.IsStdEnc))
+		e1 := EffectiveEncoding(src.Encoding, src.Glyphs)
+		e2 := EffectiveEncoding(dec.Encoding, src.Glyphs)
+		for c := range e1 {
+			if e1[c] != e2[c] {
+				out = append(out, diff("encoding", "code %d: %q decoded as %q (file uses the StandardEncoding keyword: %v)", c, e1[c], e2[c], dec.IsStdEnc))
 				break
 			}
 		}
@@ -435,9 +441,8 @@ func CompareDecoded(src *type1.Font, dec *t1dec.Font) []Diff {
 			continue
 		}
 		g := src.Glyphs[n]
-		wx, wy := math.Round(g.WidthX), math.Round(g.WidthY)
-		if d.WX.Cmp(ratOf(wx)) != 0 || d.WY.Cmp(ratOf(wy)) != 0 {
-			out = append(out, diff("width", "glyph %q: width (%v,%v) [rounded (%v,%v)] decoded as (%s,%s)", n, g.WidthX, g.WidthY, wx, wy, d.WX.RatString(), d.WY.RatString()))
+		if !roundedTo(g.WidthX, d.WX) || !roundedTo(g.WidthY, d.WY) {
+			out = append(out, diff("width", "glyph %q: width (%v,%v) decoded as (%s,%s), expected the nearest integers", n, g.WidthX, g.WidthY, d.WX.RatString(), d.WY.RatString()))
 		}
 		if d.SBX.Sign() != 0 || d.SBY.Sign() != 0 {
 			out = append(out, diff("sidebearing", "glyph %q: side bearing point (%s,%s), the outline is in absolute coordinates so it must be 0", n, d.SBX.RatString(), d.SBY.RatString()))
@@ -453,6 +458,15 @@ func CompareDecoded(src *type1.Font, dec *t1dec.Font) []Diff {
 		}
 	}
 	return out
+}
+
+// roundedTo: got is an integer nearest to w (either neighbour on a tie).
+func roundedTo(w float64, got *big.Rat) bool {
+	if !got.IsInt() {
+		return false
+	}
+	d := new(big.Rat).Sub(ratOf(w), got)
+	return d.Abs(d).Cmp(big.NewRat(1, 2)) <= 0
 }
 
 func stemDiff(want []funit.Int16, got []t1dec.Stem) string {
@@ -495,6 +509,12 @@ func CompareOutlineDecoded(a []type1.GlyphOp, b []t1dec.Cmd, tol *big.Rat) strin
 			}
 			if !isInt(v) {
 				*exact = false
+			}
+			if *exact && math.Abs(v) < 1<<53 {
+				if !(w.IsInt() && w.Num().IsInt64() && w.Num().Int64() == int64(v)) {
+					return fmt.Sprintf("command %d argument %d: integer coordinate %v decoded as %s", i, k, v, w.RatString())
+				}
+				continue
 			}
 			want := ratOf(v)
 			if *exact {
